@@ -71,7 +71,7 @@ def named(el, back=None):
 
         def mp(x):
             if isinstance(x, list):
-                return sorted((mp(y) for y in x), key=repr) if x and all(isinstance(y, str) and y in back for y in x) else [mp(y) for y in x]
+                return sorted(mp(y) for y in x) if x and all(isinstance(y, str) and y in back for y in x) else [mp(y) for y in x]
             return back.get(x, x) if isinstance(x, str) else x
         st = mp(st)
         for s in st:
